@@ -2,6 +2,7 @@ package c19
 
 import (
 	"fmt"
+	"runtime"
 	"sync"
 	"sync/atomic"
 	"testing"
@@ -30,6 +31,8 @@ type Case struct {
 	Buf   int    `json:"io_buf,omitempty"`
 	Steps []Step `json:"steps"`
 	Stop  bool   `json:"stop_at_end"`
+	// YieldPerMille (instrumented build): schedule perturbation at the pool's lock / unlock statements
+	YieldPerMille int `json:"yield_per_mille,omitempty"`
 }
 
 type task struct {
@@ -127,6 +130,7 @@ func freshWidth(c Case) int {
 }
 
 func runPool(c Case) vlib.Result {
+	defer vlib.Yield(c.YieldPerMille, 0x9001)()
 	vlib.Logs.Take()
 	res := vlib.Result{Classes: []string{fmt.Sprintf("m=%d", c.M)}}
 	w0 := freshWidth(c)
@@ -310,6 +314,9 @@ func genPool(t *rapid.T) Case {
 		}
 	}
 	c.Stop = rapid.Bool().Draw(t, "stop")
+	if vlib.YieldAvailable {
+		c.YieldPerMille = rapid.SampledFrom([]int{0, 0, 100, 300}).Draw(t, "yield")
+	}
 	return c
 }
 
@@ -320,9 +327,14 @@ type AsyncCase struct {
 	Each       int `json:"each"`
 	PanicEvery int `json:"panic_every"`
 	SleepEvery int `json:"sleep_every"`
+	// PaceUs: producers pause about this long between calls, so that the drainer keeps running dry and being
+	// restarted while other producers arrive (0 = free running: a standing backlog)
+	PaceUs        int `json:"pace_us,omitempty"`
+	YieldPerMille int `json:"yield_per_mille,omitempty"`
 }
 
 func runAsync(c AsyncCase) vlib.Result {
+	defer vlib.Yield(c.YieldPerMille, 0xa5c)()
 	vlib.Logs.Take()
 	res := vlib.Result{Classes: []string{"async", fmt.Sprintf("producers=%d", c.Producers)}}
 	tm := timer.New("c19")
@@ -360,6 +372,12 @@ func runAsync(c AsyncCase) vlib.Result {
 						panic("async function panics on purpose")
 					}
 				})
+				if c.PaceUs > 0 {
+					d := time.Duration(c.PaceUs+(p*5+i*3)%c.PaceUs) * time.Microsecond
+					for t0 := time.Now(); time.Since(t0) < d; {
+						runtime.Gosched()
+					}
+				}
 			}
 		}(p)
 	}
@@ -400,6 +418,18 @@ func runAsync(c AsyncCase) vlib.Result {
 }
 
 func genAsync(t *rapid.T) AsyncCase {
+	c := genAsync0(t)
+	c.PaceUs = rapid.SampledFrom([]int{0, 0, 1, 5, 30}).Draw(t, "pace")
+	if vlib.YieldAvailable {
+		c.YieldPerMille = rapid.SampledFrom([]int{0, 100, 300}).Draw(t, "yield")
+	}
+	if c.PaceUs > 0 && c.Each > 100 {
+		c.Each = 100
+	}
+	return c
+}
+
+func genAsync0(t *rapid.T) AsyncCase {
 	return AsyncCase{Producers: rapid.SampledFrom([]int{1, 2, 3, 8, 16}).Draw(t, "producers"), Each: rapid.SampledFrom([]int{1, 10, 100, 1000}).Draw(t, "each"),
 		PanicEvery: rapid.SampledFrom([]int{0, 0, 3, 50}).Draw(t, "panicevery"), SleepEvery: rapid.SampledFrom([]int{0, 0, 7, 100}).Draw(t, "sleepevery")}
 }
